@@ -85,6 +85,7 @@ type simHistOpts struct {
 
 // simHistStats describes what a generated history actually exercised.
 type simHistStats struct {
+	Evictions                                                                                               int
 	CreateRaces, CreatesOverExisting                                                                        int
 	ResubmittedFailed                                                                                       int
 	RateLimited                                                                                             int
@@ -163,7 +164,8 @@ type simHist struct {
 	dedupErr error
 	toolRuns int
 
-	lastFailed    []*simEntry // entries whose submitters got an error in the previous round
+	evicted       map[string]bool // dedup oracle: entries evicted from a bounded pool and not admitted again since
+	lastFailed    []*simEntry     // entries whose submitters got an error in the previous round
 	shapeOverride map[int]int
 	curSubmitting *simEntry
 	httpNext      int
@@ -219,14 +221,46 @@ func (h *simHist) submit(ctx context.Context, e *simEntry) *simWaiter {
 	key := e.dedupKey()
 	wasPending, wasInSeq := h.pending[key], h.inSeq[key]
 	mustAck, isMust := h.must[key]
-	wt := s.submit(ctx, h.in, e, false)
+	low := h.opts.Admission && e.ID >= 0 && (uint32(e.ID)*2654435761>>9)%4 == 0
+	var curPool *pool
+	var before []*PendingLogEntry
+	if h.opts.Admission && s.pool > 0 {
+		h.in.l.poolMu.Lock()
+		curPool = h.in.l.currentPool
+		before = append(before, curPool.pendingLeaves...)
+		h.in.l.poolMu.Unlock()
+	}
+	wt := s.submit(ctx, h.in, e, low)
+	if curPool != nil {
+		// an eviction replaces a pending low-priority leaf in place: that entry is no longer pending, and until it is
+		// acknowledged some day the oracle makes no prediction about it (its refusing wait function stays registered)
+		h.in.l.poolMu.Lock()
+		if len(curPool.pendingLeaves) == len(before) {
+			for i, old := range before {
+				if curPool.pendingLeaves[i] != old {
+					ek := (&simEntry{P: old}).dedupKey()
+					delete(h.pending, ek)
+					if h.evicted == nil {
+						h.evicted = map[string]bool{}
+					}
+					h.evicted[ek] = true
+					h.st.Evictions++
+				}
+			}
+		}
+		h.in.l.poolMu.Unlock()
+	}
+	if wt.Src == "ratelimit" {
+		h.st.RateLimited++
+	}
 	fail := func(format string, a ...any) {
-		if h.dedupErr == nil {
+		if h.dedupErr == nil && !h.evicted[key] {
 			h.dedupErr = fmt.Errorf(format, a...)
 		}
 	}
 	switch wt.Src {
 	case "sequencer":
+		defer delete(h.evicted, key)
 		switch {
 		case wasPending:
 			fail("entry %s is already pending in the current pool but was admitted again as a new leaf", key[:14])
@@ -431,7 +465,11 @@ func (h *simHist) run(t *rapid.T) error {
 		}
 	}
 	if h.opts.Admission {
-		s.pool = rapid.SampledFrom([]int{0, 0, 0, 2, 5, 9, 260}).Draw(t, "poolSizeLimit")
+		sizes := []int{0, 0, 0, 2, 5, 9, 260}
+		if h.opts.Dedup {
+			sizes = []int{0, 0, 0, 0, 3, 8, 260}
+		}
+		s.pool = rapid.SampledFrom(sizes).Draw(t, "poolSizeLimit")
 		h.st.PoolSize = s.pool
 		if s.pool > 0 {
 			h.st.descf("Config.PoolSize=%d", s.pool)
@@ -593,7 +631,13 @@ func (h *simHist) run(t *rapid.T) error {
 				if h.opts.Dedup {
 					// bookkeeping of the dedup oracle for submissions that bypass h.submit
 					key := sub.Entry.dedupKey()
-					if _, isMust := h.must[key]; !isMust && !h.pending[key] {
+					answered := false
+					select {
+					case <-sub.done:
+						answered = true // refused at once (pool full) or answered from the cache: not pending
+					default:
+					}
+					if _, isMust := h.must[key]; !isMust && !h.pending[key] && !answered {
 						h.pending[key] = true
 					}
 				}
